@@ -206,6 +206,14 @@ def operandsGuarded {K} (b : BState K) : Bool :=
       | none => true
     | none => true
 
+/-- An expression id the builder has handed out for a value (exists, not a call node); the Model-level
+copy of `P3R.C02T.proper` (`P3R.C09R.properId_eq`), used by the driver to flag `ReachablePrim` programs. -/
+def properId {K} (nodes : Array (Expr K)) (x : Nat) : Bool :=
+  match nodes[x]? with
+  | some (.npCall _ _) => false
+  | some _ => true
+  | none => false
+
 /-- The fusion pass keeps the certificate of the de-duplicated list (decidable; an implication): the
 one step of `compile ⇒ defUse` that is not proved for every program after `P3R.C09O`. -/
 def fuseKeeps {K} (l : Lowered K) : Bool :=
